@@ -117,6 +117,17 @@ func doCheck(prop, tier, repo, verif, only string, dump bool, timeoutS, seed int
 		out.engineErr = "contract files: " + err.Error()
 		return out
 	}
+	// a contract that is neither assumed nor attached to a property would be used at call sites without ever
+	// being verified: refuse to run rather than trust it silently
+	for _, p := range sortedKeys(contracts) {
+		cf := contracts[p]
+		for _, k := range cf.Order {
+			if fc := cf.Funcs[k]; !fc.Assumed && !fc.mentionsAny() {
+				out.engineErr = "contract of " + p + "." + k + " is attached to no property (tag a clause or add `property Cxx`), so nothing would verify it"
+				return out
+			}
+		}
+	}
 	funcs, lemmas, sites := contractTargets(contracts, prop)
 	if len(funcs) == 0 && len(lemmas) == 0 && len(sites) == 0 {
 		out.engineErr = "no contracts carry property " + prop
